@@ -867,6 +867,14 @@ def replace_parameter_references(
     Returns:
         The resolved parameter value
     """
+    if isinstance(value, dict):
+        # VV: a dictionary-valued argument (e.g. an environment) may use parameters in its values, resolve each one
+        return {
+            key: replace_parameter_references(
+                value=inner, all_scopes=all_scopes, location=location, is_replica=is_replica, variables=variables)
+            for key, inner in value.items()
+        }
+
     rg_parameter = re.compile(ParameterPattern)
 
     def should_resolve_more(what: ParameterValueType, variables: typing.Iterable[str]) -> bool:
